@@ -321,6 +321,14 @@ func (ev *Ev) specCall(x *ast.CallExpr) Value {
 		key := u.objKey(ev, x.Args[0])
 		u.famSort("G:wg", arraySort(SRef, SInt))
 		return intV(app("select", u.fam(ev.st, "G:wg", arraySort(SRef, SInt)), key))
+	case "arrayOf":
+		// arrayOf(s): the backing array of slice s (a fresh one after append/make, shared after plain assignment or reslicing)
+		v := ev.expr(x.Args[0])
+		if v.K != vSlice {
+			return ev.errorf(x.Pos(), "arrayOf of a non-slice")
+		}
+		base, _ := u.resolveView(v.Comp["#arr"].T, "0")
+		return scalar(base, SRef, nil)
 	case "wgWaits":
 		key := u.objKey(ev, x.Args[0])
 		u.famSort("G:wgw", arraySort(SRef, SInt))
